@@ -26,6 +26,34 @@ def bounded(tier):
     return json.loads(line[-1]), None
 
 
+def alias_replay(_name):
+    """Real `python -m cdd exmod` on a package (plain directory on PYTHONPATH) whose classes are re-exported under aliases"""
+    import shutil
+    import sys
+    import tempfile
+
+    from checks import c20_driver as D
+
+    root = tempfile.mkdtemp(prefix="cddvc_c20a_")
+    try:
+        plain = os.path.join(root, "plain")
+        for pkg, mk in (("cddvcalias", D.make_alias_pkg), ("cddvcplain", D.make_pkg)):
+            base = os.path.join(plain, pkg)
+            mk(base, pkg)
+            for emit, recursive in (("class", True), ("class", False), ("sqlalchemy_table", True)):
+                out = os.path.join(root, "out_%s_%s_%s" % (pkg, emit, recursive), "exposed")
+                before = D.snapshot(base)
+                rc, tail = D.run_exmod(sys.executable, ["--module", pkg + ".gen", "--emit", emit, "--output-directory", out] + (["--recursive"] if recursive else []), root, extra_path=plain)
+                d = D.diff(before, D.snapshot(base))
+                bad = D.check_generated(out) if rc == 0 and os.path.isdir(out) else []
+                if d or bad:
+                    return {"emit": emit, "recursive": recursive, "dry_run": False, "placement": "plain directory on PYTHONPATH" + (", classes re-exported under aliases" if pkg == "cddvcalias" else ""),
+                            "what": ("source package modified: %s" % [x.replace(root, "<tmp>") for x in d[:3]]) if d else ("generated output: %s" % [b.replace(root, "<tmp>") for b in bad[:2]])}
+        return None
+    finally:
+        shutil.rmtree(root, ignore_errors=True)
+
+
 def main(tier, write_baseline=False):
     import importlib
 
@@ -64,6 +92,8 @@ def main(tier, write_baseline=False):
     from cddvc import e1
 
     e1_refuted = e1.run_contracts(run, "contracts.C20")
+    # shape rule (contracts.C20.structural): a failure counts only if the real CLI then touches the source package
+    e1_refuted, rule_inputs = run.confirm_or_undecide(e1_refuted, alias_replay, is_rule=lambda n: "/structural/" in n)
     if write_baseline:
         common.write_baseline("C20", [n for n, o in run.obligations.items() if o["status"] == "proved"])
     compare_baseline(run, set(run.obligations))
@@ -91,8 +121,8 @@ def main(tier, write_baseline=False):
         if o["name"] in seen_:
             continue
         seen_.add(o["name"])
-        fi = common.model_replay("contracts.C20", o)
-        if fi is None:
+        fi = rule_inputs.get(o["name"]) or common.model_replay("contracts.C20", o)
+        if fi is None and "relative_filename" in o["name"]:
             # replay the claim itself on the real function: a file outside site-packages, seen from a deep working directory
             import cdd.shared.pkg_utils as pu
 
